@@ -6,7 +6,7 @@ import subprocess
 import time
 from concurrent.futures import ThreadPoolExecutor
 
-ROOT = "/verif"
+ROOT = os.path.dirname(os.path.dirname(os.path.abspath(__file__)))
 TARGET = f"{ROOT}/target"
 HARNESS = f"{ROOT}/harness"
 REPO = "/repo"
